@@ -999,23 +999,20 @@ def _gm_native(c, p):
     class _B:
         def __init__(self, t):
             self.tag = t
+    pairs = []
     for sec, fn in _GEN.items():
-        saved[fn] = getattr(mod, fn)
-        setattr(mod, fn, (lambda cfg, fn=fn: (trace.append((fn, cfg.get('tag'))), _B(fn))[1]))
-    saved['create_model'] = mod.create_model
+        pairs += [getattr(mod, fn), (lambda cfg, fn=fn: (trace.append((fn, cfg.get('tag'))), _B(fn))[1])]
 
     def cm(cfg, *a, **k):
         trace.append(('create_model', cfg.get('tag'), tuple(tag(x) for x in a), {kk: tag(vv) for kk, vv in k.items()}))
         return 'model'
-    mod.create_model = cm
-    try:
+    pairs += [mod.create_model, cm]
+    from pyvc.unit import patched
+    with patched(*pairs):
         o = mod.ParameterParser.__new__(mod.ParameterParser)
         o._raw_config = _Cfg()
         kw = {nm.lower(): (_B('given:%s' % nm) if nm in fx['given'] else None) for nm in _SECTIONS}
         r = o.generate_model(obs=_B('given:obs') if 'obs' in fx['given'] else None, **kw)
-    finally:
-        for k, v in saved.items():
-            setattr(mod, k, v)
     return r, dict(p, __trace__=trace)
 
 
@@ -1091,11 +1088,9 @@ def _gf_native(c, p):
     class _P:
         def __init__(self, t):
             self.tag = t
-    fac.create_prior = lambda text: _P('prior<%s>' % text)
-    try:
+    from pyvc.unit import patched
+    with patched(saved, lambda text: _P('prior<%s>' % text)):
         r = _mk_parser(mod, c.values).generate_fitting_parameters()
-    finally:
-        fac.create_prior = saved
     return r, p
 
 
@@ -1152,11 +1147,9 @@ def _so_native(c, p):
         def __getattr__(self, name):
             return lambda *a: trace.append((name,) + tuple(getattr(x, 'tag', x) for x in a))
     saved = fac.create_prior
-    fac.create_prior = lambda text: _P('prior<%s>' % text)
-    try:
+    from pyvc.unit import patched
+    with patched(saved, lambda text: _P('prior<%s>' % text)):
         _mk_parser(mod, c.values).setup_optimizer(_Opt())
-    finally:
-        fac.create_prior = saved
     return None, dict(p, __trace__=trace)
 
 
